@@ -564,8 +564,72 @@ theorem mha_bias_rejects_full_rank_addend :
 theorem mha_bias_addend_prefix_refuted (i : MhabIn) (y1 y2 : Option Shape) :
     mhab { i with fix12 := false, biasFirst := false, qbias := y1 }
       = mhab { i with fix12 := false, biasFirst := false, qbias := y2 } := by
-  obtain ⟨qm, km, vm, qbias, dt, qb, kb, vb, biasFirst, heads, pre, preConst, ascale, mask, fix12⟩ := i
+  obtain ⟨qm, km, vm, qbias, qmul, dt, qb, kb, vb, biasFirst, heads, pre, preConst, ascale, mask, fix12⟩ := i
   cases pre <;> cases preConst <;> cases qb <;> simp [mhab]
+
+
+/-! ## Mixed ranks and pipeline order -/
+
+/-- The batch-transpose rules look only at the transposed operand's `perm`: the decision and the emitted flags do
+not depend on the OTHER operand's rank (finding C19-F15: for operands of different rank onnxruntime rejects
+`transBatchA/B = 1`). -/
+theorem batch_rules_ignore_other_operand_rank :
+    fmm { kind := "t1", rank := 3, xRank := 3, yRank := 2, inner := some FAttrs.empty, perm := some [1, 2, 0],
+          cstConst := true, cstShape := [], cst := 2.0 }
+      = "count=1 FusedMatMul@com.microsoft{transA=1;transBatchA=1}(x,y)->1"
+    ∧ fmm { kind := "t1", rank := 3, xRank := 3, yRank := 3, inner := some FAttrs.empty, perm := some [1, 2, 0],
+            cstConst := true, cstShape := [], cst := 2.0 }
+      = "count=1 FusedMatMul@com.microsoft{transA=1;transBatchA=1}(x,y)->1" := by decide
+
+/-- **A `Transpose` without `perm` reverses every axis; it is `transA`/`transB` only for a rank-2 operand.**
+The reversal `k ↦ n-1-k` equals the swap of the last two axes at every axis iff `n = 2` (for `n ≥ 2`): so the
+basic rules must test the rank of the *transposed* operand — `x` for the first-operand rules, `y` for the
+second-operand rules — as `_TransposeMatMulBase.check` does. -/
+theorem permless_transpose_is_swap_iff_rank2 (n : Nat) (hn : 2 ≤ n) :
+    (∀ k, k < n → n - 1 - k = axSwap n k) ↔ n = 2 := by
+  constructor
+  · intro h
+    by_contra hne
+    have h0 := h 0 (by omega)
+    have a := axSwap_cases n 0
+    omega
+  · intro h k hk
+    have a := axSwap_cases n k
+    omega
+
+/-- The model (= the code) on `MatMul(x:[2,3], Transpose(y:[3,3,3]))` with a perm-less Transpose: the second-operand
+rule looks at `y`'s rank (3) and does not fire; were it to look at `x`'s rank (2) it would emit `transB=1`. -/
+theorem permless_second_operand_rank3_not_fused :
+    fmm { kind := "t2", rank := 2, xRank := 2, yRank := 3, inner := none, perm := none, cstConst := true,
+          cstShape := [], cst := 2.0 } = "count=0"
+    ∧ fmm { kind := "t2", rank := 2, xRank := 2, yRank := 2, inner := none, perm := none, cstConst := true,
+            cstShape := [], cst := 2.0 } = "count=1 FusedMatMul@com.microsoft{transB=1}(x,y)->1" := by decide
+
+section PipelineOrder
+variable {K : Type} [Field K]
+
+/-- **Scale before bias cannot be folded into MHA's `scale` once the bias sits inside MHA.**  MHA with a packed
+bias scores `((q + b) · k) · scale`.  For a query projection `q·s + b`:
+the correct pipeline keeps the `Mul` in front (`((q·s + b) · k) · c`); folding `s` into `scale` after the bias was
+folded gives `((q + b) · k) · (s·c)`, which differs by `(1 - s) · c · (b · k)` — zero for all inputs only if `s = 1`.
+The other order, `(q + b)·s`, IS foldable. -/
+theorem scale_before_bias_not_foldable {n : Nat} (q b k : Fin n → K) (s c : K) :
+    (∑ d, (q d * s + b d) * k d) * c - (∑ d, (q d + b d) * k d) * (s * c) = (1 - s) * c * (∑ d, b d * k d)
+    ∧ (∑ d, ((q d + b d) * s) * k d) * c = (∑ d, (q d + b d) * k d) * (s * c) := by
+  constructor
+  · simp only [Finset.sum_mul, Finset.mul_sum, ← Finset.sum_sub_distrib]
+    exact Finset.sum_congr rfl (fun d _ => by ring)
+  · simp only [Finset.sum_mul]
+    exact Finset.sum_congr rfl (fun d _ => by ring)
+
+end PipelineOrder
+
+/-- The modelled stage order on `q = (x·Wq)·s + b`: `mha_scale` does not fire (count 0), `mha_bias` does, and the
+`Mul` stays in front of the fused node. -/
+theorem pipeline_scale_bias_keeps_mul :
+    pipe { qm := some [.int 2, .int 3, .int 8], heads := 2, qProj := "scale_bias", kb := false, vb := false,
+           s := 0.5, sdpaScale := none, mask := false }
+      = "count=1/1/0/1/0 MultiHeadAttention@com.microsoft{num_heads=2}(@Mul,km,vm,@Concat)->1" := by decide
 
 /-! ## Decisions: facts about the transcribed checks -/
 
